@@ -19,14 +19,14 @@ const (
 // paramHandler is the parametric application handler: reads k messages, optionally
 // responds, returns nil or an error. The probe RPC records what it received.
 type paramHandler struct {
-	k         int
-	respond   bool
-	fail      bool
-	served    int
-	probeSeen bool
-	probeGot  []byte
-	pause     bool // the handler takes its time after reading: it waits for proceed
-	proceed   bool
+	k              int
+	respond        bool
+	fail           bool
+	served         int
+	probeSeen      bool
+	probeGot       []byte
+	pause          bool // the handler takes its time after reading: it waits for proceed
+	proceed        bool
 	closeSendFirst bool // the handler half-closes explicitly before returning
 }
 
